@@ -49,4 +49,9 @@ PROPERTIES = {
         explanation="introspection decision chain (complete, loop-free), header resolution; defaults through the C06 contracts",
         assumptions=["equality of whole generated packages across sources is outside this family (see DESIGN 8)"],
     ),
+    "C17": dict(
+        modules=["contracts.c17_settings"],
+        explanation="configuration validators (raise iff constraint violated), header resolution with frame, section lookup",
+        assumptions=["schema validity is graphql-core's (assert_valid_schema); file system predicates are the OS's"],
+    ),
 }
